@@ -21,6 +21,28 @@ CHECKS = {
              "resulting target state); a fresh RedisOutput performs the real start-up bookkeeping + StartPoint + Send from the returned offset; "
              "second/third crashes on a PRNG subset. Oracles: resume position absorbed, no skipped write, right DB, exactly-once in transactional mode.",
         design="DESIGN.md §3 C02", note=TRUST + "; crash = prefix of executed requests (tool and target die together or in-flight requests are lost)"),
+    "C03": dict(level="exploration", engine="fullsync+rdbx",
+        technique="runtime oracle: snapshots built by an independent RDB codec are replayed by the real Send into a Redis double; final keyspace, expiries and every RESTORE payload compared with the dataset; worker processes with hang/memory guards",
+        text="Thousands of generated datasets per run, every on-disk encoding / integer width / boundary value rdbx can emit (validated against the repo's real-Redis "
+             "fixture blobs), RDB versions 6-12, restore on/off, max-bulk, parallelism, pipe sizes, db maps/filters, chunk threshold lowered through the hook, "
+             "older targets answering 'Bad data format'. Held on the executions produced.",
+        design="DESIGN.md §3 C03", note="internal/rdbx is the format reference (stream listpacks v4 and SLOT_INFO excluded: no real bytes offline); " + TRUST),
+    "C04": dict(level="fault_enumeration", engine="fullsync+rdbx",
+        technique="fault injection + runtime monitor: every truncation and every single-byte alteration of valid checksummed snapshots through the real parser/expansion, sampled through Send; target error at every write; cancellation at every target request and right after the last byte is parsed",
+        text="Exhaustive per snapshot for the byte sweeps and per observed request sequence for error/cancel points (not over schedules). Oracle: error reported, "
+             "no resume position at the snapshot offset, call returns, process survives (worker processes; crash/hang/memory growth is a violation after two isolated confirmations); "
+             "a replay reported complete must have applied every key.",
+        design="DESIGN.md §3 C04", note="CRC64 detects all single-byte alterations; cancellation is delivered at logical instants of the double; " + TRUST),
+    "C08": dict(level="fault_enumeration", engine="prf+child",
+        technique="crash-image sampling: a live writer child process is SIGSTOPped at aimed/PRNG instants, its directory copied and reopened by a fresh StoreChannel; served bytes compared with PRF(offset); closed segments altered and reopened with verifyCrc",
+        text="Hundreds (quick) / thousands (thorough) of frozen directory images over all write phases incl. kill-and-restart chains and mid-removal images, classified by "
+             "structural signature; instants are sampled, not exhaustive; required phases enforced by count.",
+        design="DESIGN.md §3 C08", note="a stopped process performs no syscalls, so the copy is an exact kill-point image of the page cache; fsync ordering of a power loss is not modelled"),
+    "C20": dict(level="exploration", engine="fullsync+rdbx",
+        technique="runtime oracle as C03 with a pre-populated target double under each key-exists policy; existing keys compared bit-for-bit before/after and against the request log",
+        text="Prior contents (same/different type, with/without expiry, any subset of snapshot keys) x policies replace/ignore/error x RESTORE / native / chunked / "
+             "bad-data-format fallback paths x workers 1/4.",
+        design="DESIGN.md §3 C20", note=TRUST + "; bidirectional replay path not yet covered"),
     "C07": dict(level="fault_enumeration", engine="sweep",
         technique="runtime monitor over the ordered list of <runid>_offset writes observed at the target, idle-heavy feeding plans and restart sequences",
         text="Every value written to the resume-position field during base and resumed runs is checked against the generated stream's command-end "
